@@ -29,6 +29,27 @@ pub fn pct_spellings(f: Family, level: u8) -> Vec<Vec<u8>> {
 	v(&x)
 }
 
+/// Paths with 16 / 17 / 18 segments and equivalent spellings with dot segments (the
+/// normalised-segment iterator spills to the heap beyond 16 segments).
+pub fn long_paths() -> Vec<Vec<u8>> {
+	let mut out = Vec::new();
+	for n in [16usize, 17, 18] {
+		let base: Vec<String> = (0..n).map(|i| format!("s{i}")).collect();
+		let plain = base.join("/");
+		for abs in ["", "/"] {
+			out.push(format!("{abs}{plain}"));
+			out.push(format!("{abs}{plain}/."));
+			out.push(format!("{abs}{plain}/x/.."));
+			out.push(format!("{abs}./{plain}"));
+			out.push(format!("{abs}{plain}/"));
+			let mut enc = base.clone();
+			enc[n - 1] = format!("%73{}", n - 1);
+			out.push(format!("{abs}{}", enc.join("/")));
+		}
+	}
+	out.into_iter().map(|s| s.into_bytes()).collect()
+}
+
 pub fn domain(f: Family, k: Kind, refs: &Refs, level: u8) -> Vec<Vec<u8>> {
 	let sp = pct_spellings(f, level);
 	let mut out: Vec<Vec<u8>> = match k {
@@ -63,6 +84,7 @@ pub fn domain(f: Family, k: Kind, refs: &Refs, level: u8) -> Vec<Vec<u8>> {
 			if f == Family::Iri {
 				x.extend(v(&["é/b", "%C3%A9/b"]));
 			}
+			x.extend(long_paths());
 			x
 		}
 		Kind::Authority => {
@@ -90,7 +112,16 @@ pub fn domain(f: Family, k: Kind, refs: &Refs, level: u8) -> Vec<Vec<u8>> {
 				paths.extend(v(&["a", "/a/", "/a/b/..", "a/b", "a/./b", "//a", "/.//a", "..", "/a//b", "/a/%2E/b", ".", "a/..", "/..", "/%2e%2e"]));
 				qs.push(Some(domains::b("%FF")));
 			}
-			domains::references(&schemes, &auths, &paths, &qs, &fs).into_iter().map(|(t, _)| t).collect()
+			let mut all: Vec<Vec<u8>> = domains::references(&schemes, &auths, &paths, &qs, &fs).into_iter().map(|(t, _)| t).collect();
+			// beyond the 16-segment inline buffer of the normalised-segment iterator
+			for lp in long_paths().into_iter().filter(|p| p.starts_with(b"/")) {
+				for pre in ["s://h", "s:"] {
+					let mut t = pre.as_bytes().to_vec();
+					t.extend_from_slice(&lp);
+					all.push(t);
+				}
+			}
+			all
 		}
 	};
 	out.retain(|t| refs.valid(f, k, t));
@@ -149,6 +180,30 @@ fn run_prop(ctx: &Ctx, prop: &'static str) -> Report {
 			r
 		});
 		total.merge(r);
+		if prop == "C08" && f == Family::Uri && !matches!(k, Kind::Scheme | Kind::Port) {
+			// Borrow<Iri>/Borrow<IriRef> for Uri: the IRI view must compare, order and (for whole
+			// URIs) hash exactly like the URI - on every ordered pair
+			let shards = 64usize.min(n.max(1));
+			let r = run_shards(ctx, shards, |si| {
+				let mut r = Report::new();
+				for (i, a) in dom.iter().enumerate() {
+					if i % shards != si {
+						continue;
+					}
+					for b in &dom {
+						r.evaluations += 1;
+						if let Some(v) = cross_family_case(k, a, b) {
+							r.violate(v);
+						}
+					}
+				}
+				r
+			});
+			total.merge(r);
+		}
+		if prop == "C08" && k == Kind::Ri {
+			total.evaluations += by_family!(f, c08_collections(&dom, &mut total));
+		}
 		if prop == "C08" {
 			// triples on a sub-domain that keeps one or two members of every class
 			let mut sub: Vec<&Vec<u8>> = Vec::new();
@@ -204,9 +259,62 @@ pub fn replay_c07(_ctx: &Ctx, _check: &str, input: &Value) -> Vec<Violation> {
 		None => vec![],
 	}
 }
-pub fn replay_c08(_ctx: &Ctx, _check: &str, input: &Value) -> Vec<Violation> {
-	match super::input_family(input) {
-		Some(f) => by_family!(f, c07_replay(input, "C08")),
-		None => vec![],
+fn cross_family_case(k: Kind, a: &[u8], b: &[u8]) -> Option<Violation> {
+	let (u, ir) = (crate::fam::uri::c07_pair_obs(k, a, b), crate::fam::iri::c07_pair_obs(k, a, b));
+	if let (crate::engine::Guard::Ok(u), crate::engine::Guard::Ok(ir)) = (u, ir) {
+		let whole = matches!(k, Kind::Ri | Kind::RiRef);
+		if u.eq != ir.eq || u.cmp != ir.cmp || (whole && (u.hash_a != ir.hash_a || u.hash_b != ir.hash_b)) {
+			return Some(
+				Violation::new("C08", "cross-family", "uri-vs-iri-view", crate::fam::uri::c07_input(k, a, b))
+					.feat("type", format!("uri::{}", k.name()))
+					.obs(format!("URI: == {} cmp {:?}; IRI view: == {} cmp {:?}", u.eq, u.cmp, ir.eq, ir.cmp))
+					.exp("a URI and the same text seen as an IRI compare, order and hash identically"),
+			);
+		}
+	}
+	None
+}
+
+pub fn replay_c08(ctx: &Ctx, check: &str, input: &Value) -> Vec<Violation> {
+	let f = match super::input_family(input) {
+		Some(f) => f,
+		None => return vec![],
+	};
+	match check {
+		"cross-family" => {
+			let k = input["kind"].as_str().and_then(Kind::parse);
+			let (a, b) = (crate::engine::json_bytes(&input["a"]), crate::engine::json_bytes(&input["b"]));
+			match (k, a, b) {
+				(Some(k), Some(a), Some(b)) => cross_family_case(k, &a, &b).into_iter().collect(),
+				_ => vec![],
+			}
+		}
+		"collections" => {
+			// the lookup happens in a set holding the whole domain: rebuild it (both tiers' domains
+			// are tried, the value decides which one it came from)
+			let refs = Refs::new(&ctx.root);
+			let want = crate::engine::json_bytes(&input["a"]).unwrap_or_default();
+			let mut out = Vec::new();
+			for level in [0u8, 1u8] {
+				let dom = domain(f, Kind::Ri, refs, level);
+				if !dom.contains(&want) {
+					continue;
+				}
+				let mut r = Report::new();
+				by_family!(f, c08_collections(&dom, &mut r));
+				for b in r.buckets.into_values() {
+					for v in b.examples {
+						out.push(v);
+					}
+				}
+				// the aggregated report keeps 3 examples per signature: normalise to the asked input
+				for v in out.iter_mut() {
+					v.input = input.clone();
+				}
+				break;
+			}
+			out
+		}
+		_ => by_family!(f, c07_replay(input, "C08")),
 	}
 }
